@@ -324,6 +324,17 @@ pub fn cut_source_style_reset(&mut self, sheet: u32, source_sheet: u32, row: i32
 //@end
     Ok(())
 }
+/// a cut also moves the link away from the source cell: the source cell has no link afterwards and the removal is recorded with the link it had (C33)
+pub fn cut_source_link_removed(&mut self, source_sheet: u32, row: i32, column: i32, diff_list: &mut Vec<Diff>) -> (r: Result<(), String>)
+    ensures r.is_ok() ==> final(self).model.link_at(source_sheet, row, column) == None::<Link>,
+        r.is_ok() && old(self).model.link_at(source_sheet, row, column) is Some ==> final(diff_list)@.len() == old(diff_list)@.len() + 1
+            && (final(diff_list)@.last() matches Diff::SetCellLink { sheet: s, row: r0, column: c, old_value, new_value }
+                && s == source_sheet && r0 == row && c == column && *old_value == old(self).model.link_at(source_sheet, row, column) && *new_value == None::<Link>),
+{
+//@fragment base/src/user_model/clipboard.rs UserModel::paste_from_clipboard `let old_link = self.model.get_cell_link(source_sheet, row, column)?;` .. `new_value: Box::new(None),`
+//@end
+    Ok(())
+}
 pub fn cut_defined_name_update(&mut self, dn_name: String, dn_scope: Option<u32>, old_formula: String, new_formula: String, diff_list: &mut Vec<Diff>) -> (r: Result<(), String>)
     requires dn_name@ == g_name(), dn_scope == g_scope(), new_formula@ == g_text()
     ensures r.is_ok() ==> final(diff_list)@.len() == old(diff_list)@.len() + 1 && (final(diff_list)@.last() matches Diff::UpdateDefinedName { name, scope, old_formula: of, new_name, new_scope, new_formula: nf }
